@@ -36,6 +36,7 @@ const Row kRows[] = {
   {OP_ACCESSORS, {"accessors", C_ELEM, A_NONE, 0, true, false, false}},
   {OP_CONSTRUCT, {"construct", C_ELEM, A_NONE, 0, true, false, false}},
   {OP_STREAM, {"os<<X", C_ELEM, A_NONE, 0, true, false, false}},
+  {OP_CTOR, {"component-ctor", C_ELEM, A_NONE, 0, true, false, false}},
   {OP_HOLD, {"held-results", C_ELEM, A_ELEM, 0, true, false, true}},
 
   {OP_EXP, {"exp", C_TAN, A_NONE, 1, true, false, false}},
